@@ -245,3 +245,12 @@ func init() {
 		ruleGnmidiffRoot(c, r)
 	})
 }
+
+func init() {
+	register("C25", func(c *Ctx, r *Report) {
+		r.Decides("absence of map-iteration-order dependence in the generators' own code: every range over a map in ygen/gogen/protogen/ypathgen/genutil/generator has a commutative body or is a reviewed exception; no ambient state (time, randomness, environment) is reachable from generation.",
+			"ordering inside goyang and text/template (assumed deterministic: goyang sorts, text/template ranges maps in key order); byte identity across processes for every schema.")
+		r.Assume("text/template iterates maps in sorted key order; goyang's Entry.Dir/Identity ordering is not relied upon except through sorted accessors")
+		ruleDeterminism(c, r)
+	})
+}
